@@ -15,7 +15,7 @@ def main():
     from awverif.props._crash import HistoryRunner, is_event_write
     fd = os.open(a["journal"], os.O_WRONLY | os.O_CREAT | os.O_TRUNC)
     mode, k = a["mode"], a["k"]
-    hr = HistoryRunner(a["backend"], a["path"], os.path.dirname(a["path"]))
+    hr = HistoryRunner(a["backend"], a["path"], os.path.dirname(a["path"]), lazy=not a.get("eager"))
     n = [0]
 
     def on_stmt(stmt):
